@@ -96,7 +96,7 @@ structure Circ where
   cid : Nat
   hopIp : Bytes
   hopPort : Nat
-  e2e : Bool
+  ctype : Nat         -- Circuit.ctype: 0 DATA, 1 IP_SEEDER, 2 RP_SEEDER, 3 RP_DOWNLOADER (the last two are the e2e types)
   deriving Repr, Inhabited
 
 structure St where
@@ -296,7 +296,7 @@ def condOnData (e : DEnv) (st : St) : Cond → Bool
   | .ipv8Payload => Gen.could_be_ipv8 e.payload == some true
   | .e2eCircuit =>
     match st.circs.find? (fun c => c.cid == e.cid) with
-    | some c => c.e2e
+    | some c => c.ctype == 2 || c.ctype == 3
     | none => false
   | .ownPrefix => st.pfx == e.payload.take 22
   | .exitMessage =>
